@@ -338,15 +338,17 @@ func (cr *ChunkReader) parseChunkHeaderBytes(header []byte, l *int) (int64, stri
 	rdr := bufio.NewReader(bytes.NewReader(header))
 
 	// After the first chunk each chunk header should start
-	// with "\n\r\n"
-	if !cr.isFirstHeader && stashLen == 0 {
+	// with "\r\n". The header bytes are left in place (a partially
+	// received header is stashed as is and parsed again from its
+	// beginning once more bytes arrive).
+	hdrStart := 0
+	if !cr.isFirstHeader {
 		err := readAndSkip(rdr, '\r', '\n')
 		if err != nil {
 			return cr.handleRdrErr(err, header)
 		}
 
-		copy(header, header[2:])
-		*l = *l - 2
+		hdrStart = len(chunkHdrDelim)
 	}
 
 	// read and parse the chunk size
@@ -435,7 +437,7 @@ func (cr *ChunkReader) parseChunkHeaderBytes(header []byte, l *int) (int64, stri
 		return cr.handleRdrErr(err, header)
 	}
 
-	ind := bytes.Index(header, []byte{'\r', '\n'})
+	ind := hdrStart + bytes.Index(header[hdrStart:], []byte{'\r', '\n'})
 	cr.isFirstHeader = false
 
 	return chunkSize, sig, ind + len(chunkHdrDelim) - stashLen, nil
